@@ -279,8 +279,9 @@ func (e *Encoder) compactDocumentIRI(v string) string {
 	if pr, ok := e.prefixes.CompactPrefix(v); ok && !strings.HasPrefix(pr.Reference, "//") {
 		return pr.String()
 	} else if e.base != nil {
-		// "@type", "@foo", ... would be read back as a keyword
-		if rel, ok := e.base.RelativizeIRI(v); ok && !reKeywordForm.MatchString(rel) {
+		// "@type", "@foo", ... would be read back as a keyword; "#a://b", "#p:x", ... (a colon after the
+		// first character) as an absolute IRI, a compact IRI or a blank node identifier
+		if rel, ok := e.base.RelativizeIRI(v); ok && !reKeywordForm.MatchString(rel) && !strings.Contains(rel[min(1, len(rel)):], ":") {
 			return rel
 		}
 	}
